@@ -45,7 +45,7 @@ OBSERVERS = ['isalive', 'wait', 'close', 'terminate', 'expect_eof', 'read']
 
 def shards(tier):
     q = tier == 'quick'
-    out = [{'kind': 'rand', 'n': 90 if q else 500} for _ in range(16)]
+    out = [{'kind': 'rand', 'n': 200 if q else 500} for _ in range(16)]
     if not q:
         out = [{'kind': 'sweep', 'part': k, 'parts': 16} for k in range(16)] + out
     return out
